@@ -121,7 +121,7 @@ def live(mod, m: Dict[str, Any]):
         return raw.__func__
     if isinstance(raw, property):
         return raw.fget
-    return raw
+    return inspect.unwrap(raw) if inspect.isfunction(raw) else raw
 
 
 def sig_shape(func) -> List[Tuple[str, str, bool]]:
@@ -280,6 +280,54 @@ def run_module(res: Result, ctx: Ctx, mi: int, group, srcdir: Path, subsets: Opt
             res.sample({"module": src[:500], "subset": list(subset), "stub": text[:500]})
     del sys.modules[modname]
 
+
+WRAP_SRC = '''
+import functools
+
+
+def deco(f):
+    @functools.wraps(f)
+    def wrapper(*args, **kwargs):
+        return f(*args, **kwargs)
+
+    return wrapper
+
+
+@deco
+async def dco(a, b=1, *, c=None):
+    return 1
+
+
+@deco
+def dfn(a, /, b=2):
+    return 1
+
+
+class W:
+    @deco
+    async def mco(self, a, *rest):
+        return 1
+
+
+class Props:
+    def __init__(self):
+        self._v = 1
+
+    @property
+    def ro(self):
+        return self._v
+
+    @property
+    def rw(self):
+        return self._v
+
+    @rw.setter
+    def rw(self, v):
+        self._v = v
+
+    def plain(self, a):
+        return a
+'''
 
 DESC_SRC = '''
 import abc
@@ -509,6 +557,65 @@ def special_stage(res: Result, ctx: Ctx, srcdir: Path) -> None:
             except Exception as e:  # noqa: BLE001
                 res.violate(Violation(ID, "exception", "typed-dict-field-not-an-identifier", case, f"value {val!r}, k={k}: raised {e!r}"))
     res.oblige("special:non-identifier-dict-keys", True)
+    # (1) coroutine functions behind a synchronous functools.wraps decorator, with the traces taken through the row
+    #     encoding and back (as the CLI gets them): still `async def`, still the real parameter list
+    # (2) real tracing into a StubIndexBuilder of a class with read-only and read/write properties: whatever the stub
+    #     shows for a name that is a property on the class carries @property
+    from monkeytype.encoding import CallTraceRow
+    from monkeytype.stubs import StubIndexBuilder
+    from monkeytype.tracing import trace_calls
+
+    wname = f"c12wrap_{ctx.seed}"
+    (srcdir / f"{wname}.py").write_text(WRAP_SRC)
+    importlib.invalidate_caches()
+    wmod = importlib.import_module(wname)
+    wmetas = [
+        {"idx": 0, "path": (), "name": "dco", "kind": "coroutine", "params": (), "names": [], "recv": ""},
+        {"idx": 1, "path": ("W",), "name": "mco", "kind": "cocoroutine", "params": (), "names": [], "recv": "self"},
+        {"idx": 2, "path": (), "name": "dfn", "kind": "function", "params": (), "names": [], "recv": ""},
+    ]
+    for r in range(1, 4):
+        for subset in itertools.combinations(range(3), r):
+            res.states += 1
+            res.evaluations += 1
+            res.validated += 1
+            res.transitions += len(subset)
+            case = {"module_index": -7, "subset": list(subset), "tier": ctx.tier}
+            try:
+                trs = [CallTraceRow.from_trace(t).to_trace() for t in traces_for(wmod, wmetas, subset)]
+                text = build_module_stubs_from_traces(trs, 0)[wname].render()
+            except Exception as e:  # noqa: BLE001
+                res.violate(Violation(ID, "exception", "wrapped-coroutine", case, f"decorated coroutine through the row round trip: raised {e!r}"))
+                continue
+            for kind, sig, msg in check_subset(text, wmod, wmetas, subset)[:2]:
+                res.violate(Violation(ID, kind, "wrapped-coroutine:" + sig, case, "coroutine behind a functools.wraps decorator, traces decoded from rows: " + msg))
+    sib = StubIndexBuilder(wname, 0)
+    with trace_calls(sib, 0, lambda code: code.co_filename == wmod.__file__):
+        p_ = wmod.Props()
+        p_.ro
+        p_.rw
+        p_.rw = 3
+        p_.plain(1)
+    res.states += 1
+    res.evaluations += 1
+    res.validated += 1
+    res.transitions += 4
+    case = {"module_index": -8, "subset": [0], "tier": ctx.tier}
+    try:
+        text = sib.get_stubs()[wname].render()
+        tree = ast.parse(text)
+        for (path, fname), nodes in collect(tree).items():
+            if path != ("Props",):
+                continue
+            raw = inspect.getattr_static(wmod.Props, fname, None)
+            decos = [ast.unparse(d_) for d_ in nodes[0].decorator_list]
+            if isinstance(raw, property) and decos != ["property"]:
+                res.violate(Violation(ID, "decorator", "traced-property", case, f"Props.{fname} is a property on the class; the stub built from a real tracing session shows it with decorators {decos}:\n{text}"))
+        if not any(k == (("Props",), "ro") for k in collect(tree)):
+            res.violate(Violation(ID, "placement", "traced-property", case, f"the traced read-only property Props.ro is missing from the stub:\n{text}"))
+    except Exception as e:  # noqa: BLE001
+        res.violate(Violation(ID, "exception", "traced-property", case, f"raised {e!r}"))
+    res.oblige("special:wrapped-coroutines-and-traced-properties", True)
     # two modules interleaved
     gs = groups(ctx.tier)
     for a_i, b_i in ((0, 1), (2, 5)):
@@ -578,7 +685,7 @@ def run(ctx: Ctx) -> Result:
         return res
 
     res = run_shards(ctx, shard, list(range(nshards)))
-    for o in ("saw:StubIndexBuilder", "special:same-named-functions", "special:annotated-sources-x-strategies", "special:descriptor-subclasses", "special:non-identifier-dict-keys", "special:interleaved-modules", "saw:wrapped-signature", "saw:posonly-separator", "saw:kwonly-separator", "saw:async"):
+    for o in ("saw:StubIndexBuilder", "special:same-named-functions", "special:annotated-sources-x-strategies", "special:descriptor-subclasses", "special:non-identifier-dict-keys", "special:wrapped-coroutines-and-traced-properties", "special:interleaved-modules", "saw:wrapped-signature", "saw:posonly-separator", "saw:kwonly-separator", "saw:async"):
         res.obligations.setdefault(o, False)
     res.bounds.update({"max_params": 4 if ctx.tier == "thorough" else "3 (+4 for function/instance)", "modules": len(gs), "functions_per_module": 5, "subsets": "all 31"})
     return res
